@@ -336,15 +336,33 @@ def check_index(ctx, case):
             res = a.matrix_symmetric()
             exp = [None if x is None else 0.5 * (x + x.T) for x in a.content]
         elif m == 'projected':
-            vl = np.array(args['vl'], dtype=float)
-            vr = np.array(args['vr'], dtype=float)
+            # every documented form of the two vectors: one constant array, or a list with one vector (or None) per timeslice
+            def mk(spec):
+                if spec['form'] == 'array':
+                    return np.array(spec['v'], dtype=float)
+                return [None if v is None else np.array(v, dtype=float) for v in spec['vs']]
+
+            def at(obj, t):
+                return obj[t] if isinstance(obj, list) else obj
+
+            def snap(obj):
+                return [None if v is None else v.tolist() for v in obj] if isinstance(obj, list) else obj.tolist()
+            vl, vr = mk(args['L']), mk(args['R'])
             argobj = (vl, vr)
-            s0 = (vl.tolist(), vr.tolist())
+            s0 = (snap(vl), snap(vr))
             res = a.projected(vl, vr, normalize=args['normalize'])
-            if (vl.tolist(), vr.tolist()) != s0:
-                probs.append(('violation', 'argument-mutated', 'projected vectors'))
-            l_, r_ = (vl / np.sqrt(vl @ vl), vr / np.sqrt(vr @ vr)) if args['normalize'] else (vl, vr)
-            exp = [None if x is None else np.asarray([l_ @ x @ r_]) for x in a.content]
+            if (snap(vl), snap(vr)) != s0:
+                probs.append(('violation', 'argument-mutated', 'projected vectors (%s, %s, normalize=%s)' % (args['L']['form'], args['R']['form'], args['normalize'])))
+            vl, vr = mk(args['L']), mk(args['R'])
+            exp = []
+            for t, x in enumerate(a.content):
+                l_, r_ = at(vl, t), at(vr, t)
+                if x is None or l_ is None or r_ is None:
+                    exp.append(None)
+                    continue
+                if args['normalize']:
+                    l_, r_ = l_ / np.sqrt(l_ @ l_), r_ / np.sqrt(r_ @ r_)
+                exp.append(np.asarray([l_ @ x @ r_]))
         elif m == 'hankel':
             n, per = args['n'], args['periodic']
             exp = []
@@ -511,7 +529,20 @@ def gen_case(ctx):
     elif m == 'item':
         case['args'] = {'i': rng.randrange(N), 'j': rng.randrange(N)}
     elif m == 'projected':
-        case['args'] = {'vl': [round(rng.uniform(-1, 1), 2) + 1.5 for _ in range(N)], 'vr': [round(rng.uniform(-1, 1), 2) + 1.5 for _ in range(N)], 'normalize': rng.random() < 0.5}
+        def vec():
+            return [round(rng.uniform(-1, 1), 2) + (1.5 if rng.random() < 0.7 else -0.4) for _ in range(N)]
+
+        def spec():
+            if rng.random() < 0.5:
+                return {'form': 'array', 'v': vec()}
+            return {'form': 'list', 'vs': [vec() for _ in range(T)]}
+        L, R = spec(), spec()
+        normalize = rng.random() < 0.5
+        if not normalize:       # undefined vectors on some timeslices (the normalisation does not accept them)
+            for sp in (L, R):
+                if sp['form'] == 'list' and rng.random() < 0.4:
+                    sp['vs'][rng.randrange(T)] = None
+        case['args'] = {'L': L, 'R': R, 'normalize': normalize}
     elif m == 'hankel':
         case['args'] = {'n': rng.choice([1, 2, 3]), 'periodic': rng.random() < 0.5}
     elif m == 'repr':
